@@ -1,2 +1,7 @@
 #!/bin/sh
-exit 0
+# builds the VC generator from /verif/engine (offline, module cache only)
+cd "$(dirname "$0")/engine" || exit 2
+export GOFLAGS=-mod=mod GOPROXY=off GOSUMDB=off GOTOOLCHAIN=local
+mkdir -p ../bin ../out ../evidence
+go build -o ../bin/govc . || exit 1
+echo "govc built"
